@@ -12,7 +12,7 @@ import (
 
 // IfaceExtra are named-type values placed in interface{} positions.
 func IfaceExtra() []interface{} {
-	one := 1
+	one, two := 1, 2
 	n2 := &gentypes.Node{V: 2}
 	n1 := &gentypes.Node{V: 1, Next: n2}
 	return []interface{}{
@@ -22,6 +22,14 @@ func IfaceExtra() []interface{} {
 		&gentypes.Empty{}, gentypes.Empty{},
 		[]*gentypes.One{{A: 1}, nil, {A: 2}}, []gentypes.One{{A: 1}}, map[string]*gentypes.One{"a": {A: 1}},
 		gentypes.MyInt(5), gentypes.MyString("named"), gentypes.MyFloat32(1.5), gentypes.MyBytes("nb"), gentypes.MyIntSlice{1, 2}, gentypes.MyStrMap{"k": 2},
+		// lists whose elements have one type (typed slices under ListTypeSlice), of struct values
+		// and pointers of every one-field shape, and lists whose elements only share their kind
+		[]interface{}{gentypes.OnePtr{P: &one}, gentypes.OnePtr{P: &two}}, []interface{}{&gentypes.OnePtr{P: &one}, &gentypes.OnePtr{P: &two}},
+		[]interface{}{gentypes.One{A: 1}, gentypes.One{A: 2}}, []interface{}{gentypes.OneMap{M: map[string]int{"a": 1}}, gentypes.OneMap{M: map[string]int{"b": 2}}},
+		[]interface{}{gentypes.OneStr{S: "x"}, gentypes.OneStr{S: "y"}}, []interface{}{gentypes.Scalars{S: "p"}, gentypes.Scalars{S: "q", I: 4}},
+		[]interface{}{&gentypes.One{A: 1}, &gentypes.OneStr{S: "other type"}}, []interface{}{gentypes.One{A: 1}, gentypes.OneStr{S: "other type"}},
+		[]interface{}{[]int{1, 2}, []string{"abc"}}, []interface{}{[]interface{}{1, 2}, []interface{}{"abc"}}, []interface{}{map[string]int{"a": 1}, map[int]string{1: "x"}},
+		[]interface{}{map[string]interface{}{"a": 1}, map[string]interface{}{"b": "x"}}, []interface{}{int8(1), int8(2)}, []interface{}{"s", "t"}, []interface{}{1.5, 2.5}, []interface{}{1, 2.5},
 	}
 }
 
